@@ -52,7 +52,13 @@ pub fn check_frame(addr: u16, ty: u8, data: &[u8], rep: &mut Report) {
         let mut buf = Vec::with_capacity(cap.max(data.len()));
         buf.extend_from_slice(data);
         let owned = Frame::new(Address(addr), MsgType(ty), Data::try_new(buf).expect("<=255 accepted"));
-        let borrowed = Frame::new(Address(addr), MsgType(ty), Data::try_new(data).expect("<=255 accepted"));
+        // borrowed data lies anywhere in the caller's memory: the slice starts 0..7 bytes past an 8-aligned address
+        let lead = ((u64::from(addr) >> 3) ^ u64::from(ty) ^ (data.len() as u64 >> 1)) as usize % 8;
+        let mut room = vec![0xEEu64; data.len() / 8 + 3];
+        let room_bytes: &mut [u8] = unsafe { std::slice::from_raw_parts_mut(room.as_mut_ptr().cast::<u8>(), room.len() * 8) };
+        room_bytes[lead..lead + data.len()].copy_from_slice(data);
+        let placed: &[u8] = &room_bytes[lead..lead + data.len()];
+        let borrowed = Frame::new(Address(addr), MsgType(ty), Data::try_new(placed).expect("<=255 accepted"));
         if owned != borrowed {
             bad.push(("owned_ne_borrowed", "equal frames".into(), "owned != borrowed".into()));
         }
@@ -116,6 +122,21 @@ pub fn check_frame(addr: u16, ty: u8, data: &[u8], rep: &mut Report) {
             let taken = f.clone().into_data();
             if taken.get().as_ref() != data {
                 bad.push(("accessors", sig.clone(), format!("into_data gives {:?} ({})", taken, label)));
+            }
+        }
+        // a frame that has been encoded is refilled from another (clone_from) and encoded again: it is the other frame now
+        if data.len() <= 24 || (u32::from(addr) ^ u32::from(ty)) % 16 == 3 {
+            let mut target = Frame::new(Address(addr ^ 0x0101), MsgType(ty.wrapping_add(7)), Data::try_new(vec![0x5A; (data.len() + 3) % 256]).expect("<=255"));
+            let _ = target.to_bytes_with_newline();
+            target.clone_from(&owned);
+            let mut target_b = Frame::new(Address(addr), MsgType(ty), Data::try_new(&[1u8, 2, 3][..]).expect("3"));
+            let _ = target_b.to_bytes();
+            target_b.clone_from(&borrowed);
+            for (label, t) in [("clone_from an owned frame", &target), ("clone_from a borrowed frame", &target_b)] {
+                let got = t.to_bytes_with_newline();
+                if got != want_nl || *t != owned || t.to_bytes() != want {
+                    bad.push(("refilled_frame_differs", show_bytes(&want_nl), format!("{} ({})", show_bytes(&got), label)));
+                }
             }
         }
         // Decode what the *reference* encoder produced and what the library produced (identical if the
